@@ -353,7 +353,8 @@ def run(tier, seed):
     ntr, ntexts = [], []
     cases = [(tuple(c), None) for c in (':D.D', 'L-L.L', 'L.D', 'L.L', '/L', '/L/L', 'L', 'U.U-', ':L.L', 'L.L.', ':D', 'L/L.L')]
     # a line feed (class O) at the very end, where a careless '$' lets it pass
-    cases += [(tuple('LLLLO'), 'Ping\n'), (tuple('L.LO'), 'a.b\n'), (tuple('/LO'), '/a\n'), (tuple(':D.DO'), ':1.2\n'),
+    cases += [((), ''), ((), ''), ((), ''), ((), ''),          # the empty string, in every constructor variant
+              (tuple('LLLLO'), 'Ping\n'), (tuple('L.LO'), 'a.b\n'), (tuple('/LO'), '/a\n'), (tuple(':D.DO'), ':1.2\n'),
               (tuple('LLLLO'), 'Ping\0')]
     for cls, given in cases:
         text = given if given is not None else c18.instantiate(cls, len(ntr))
